@@ -39,7 +39,7 @@ OPS = ["write", "read", "clear", "get_free_space", "get_used_space"]
 def step(op, mmax):
     mm = mmax + 17
     return Q("step_%s_m%d" % (OPS[op], mmax), "harness/C08_step.c", units=STEP_UNITS, models=BASE + ["models/kernel_ipc_mem.c"],
-             defs=["OP=%d" % op, "MMAX=%d" % mmax, "VM_MEMMAX=%d" % mm], includes=["models/redir_ipc_mem.h"],
+             hdefs=["OP=%d" % op, "MMAX=%d" % mmax, "VM_MEMMAX=%d" % mm], includes=["models/redir_ipc_mem.h"],
              unwindset={"vm_memcpy.0": mm + 1, "vm_memset.0": mm + 1, "harness.0": mmax + 2, "harness.1": mmax + 2, "harness.2": mmax + 2, "harness.3": mmax + 2},
              timeout=1800, funcs=FUNCS,
              bounds={"ring_modulus": "2..%d (symbolic)" % mmax, "len": "any 64-bit value", "pre_state": "any read_pos, write_pos < modulus, any bytes",
@@ -51,7 +51,7 @@ def hist(seq, start, smax, demo=False):
     uw.update({"do_op.0": smax + 3, "do_op.1": smax + 3, "do_op.2": smax + 3, "vm_mem_access.0": 8})
     cross = any(a == "w" and b == "r" and (j - i) % 2 == 1 for i, a in enumerate(seq) for j, b in enumerate(seq) if j > i)
     return Q("hist_%s_h%d_s%d%s" % (seq, start, smax, "_kfdemo" if demo else ""), "harness/C08_hist.c", units=HIST_UNITS, models=KM,
-             defs=["OPS=" + ",".join(str(OPC[c]) for c in seq), "START=%d" % start, "SMAX=%d" % smax, "VK_PAGE=16", "VK_NPAGES=2", "VK_NSHM=2",
+             hdefs=["OPS=" + ",".join(str(OPC[c]) for c in seq), "START=%d" % start, "SMAX=%d" % smax, "VK_PAGE=16", "VK_NPAGES=2", "VK_NSHM=2",
                    "VM_MEMMAX=%d" % memmax] + (["KF_DEMO_SMALLER"] if demo else []) + (["EXPECT_CROSS"] if cross else []),
              includes=["models/redir_ipc.h"], unwindset=uw, timeout=1500, funcs=FUNCS + ["p_shm_new", "p_shm_lock", "p_shm_unlock"],
              kf="C08_smaller_size" if demo else None,
